@@ -710,3 +710,7 @@ PROPS["C17"]["claim"] += (" HISTORY FORM about the translated code (Proofs/EndTo
 PROPS["C13"]["proofs"] = PROPS["C13"]["proofs"] + ["Bmc.Proofs.EndToEnd.HistoryC13"]
 PROPS["C13"]["claim"] += (" HISTORY FORM of the logical half, about the translated code (Proofs/EndToEnd/HistoryC13.lean): generated_history_call_within_its_context — the n-th call of any history on SendCommand AS TRANSLATED "
                           "adds at most as many datagrams as ITS OWN context allowed outcomes (nothing carried over from earlier calls); generated_history_within_contexts / _prefix_ — totals.")
+for _p in ("C04", "C11"):
+    PROPS[_p]["proofs"] = PROPS[_p]["proofs"] + ["Bmc.Proofs.EndToEnd.WholeC04"]
+    PROPS[_p]["claim"] += (" WHOLE (Proofs/EndToEnd/WholeC04.lean): generated_session_then_history_results — with the session newV2Session AS TRANSLATED returns against the specification's BMC, over ANY history every returned "
+                           "completion code is justified by a reply authenticated under the K1 THAT BMC derived for itself, addressed to the console's session ID, for that call's command.")
